@@ -28,6 +28,7 @@ def run(rep, tier, seed):
         ]
     T.tracer_check(rep, configs, "C04")
     T.jacobian_utpm_check(rep, seed)
+    T.validate_recorded(rep, "C04", repo_tests=False)
     T.self_test(rep)
     return rep.finish("one case = (program, recording kind, driver call with arguments from the catalogue, at a point different from "
                       "the recording point); non-trivial = >= 2 instructions; distinct by (config, behaviour, recording kind)")
